@@ -5,7 +5,9 @@ package h
 import (
 	"encoding/json"
 	"fmt"
+	"github.com/couchbaselabs/rosmar"
 	"os"
+	"path/filepath"
 	"sort"
 	"strings"
 	"sync"
@@ -23,6 +25,9 @@ type crashCase struct {
 	Steps  []Op       `json:"steps"`
 	Crash  CrashPoint `json:"crash"`
 	After  []Op       `json:"after"` // follow-up steps on the reopened bucket
+	// FailedCreate: before the bucket is reopened, OpenBucket(CreateNew) is tried on it: it must be
+	// refused (the bucket exists) and, being a failed call, leave everything as it was
+	FailedCreate bool `json:"failedCreate,omitempty"`
 }
 
 // crashProfile: histories for the child (documents, xattrs, deletes, design docs, views, purge,
@@ -96,9 +101,15 @@ func afterCrash(cc *crashCase, dir, name string, res *ChildResult) (devs []Devia
 			wantColls = append(wantColls, n)
 		}
 	}
+	if cc.FailedCreate {
+		if b, err := rosmar.OpenBucket("rosmar://"+filepath.Join(dir, "b"), name, rosmar.CreateNew); err == nil {
+			bad("crash.createnew", "OpenBucket(CreateNew) on the existing bucket succeeded")
+			b.Close(ctx)
+		}
+	}
 	w, err := NewWorldAt(cfg, dir, name, true)
 	if err != nil {
-		bad("crash.reopen", "cannot reopen the bucket after the kill: %v", err)
+		bad("crash.reopen", "cannot reopen the bucket after the kill (failed CreateNew attempt before: %v): %v", cc.FailedCreate, err)
 		return
 	}
 	defer w.Close()
@@ -483,7 +494,7 @@ func TestC10(t *testing.T) {
 		}
 		sort.Ints(idx)
 		for _, i := range idx {
-			cc := &crashCase{Config: cfg, Steps: rp.Steps, Crash: points[i], After: after}
+			cc := &crashCase{Config: cfg, Steps: rp.Steps, Crash: points[i], After: after, FailedCreate: (i+len(rp.Steps))%3 == 0}
 			devs, res, applied, err := runCrashCase(cc)
 			if err != nil {
 				rt.Fatalf("INFRA: %v", err)
